@@ -16,7 +16,7 @@ rsync -a --exclude .git --exclude docs --exclude publication-figures /repo/ "$D/
 (cd "$D" && git apply --unsafe-paths -p1 --directory="$D" "$OUT/patch.diff" 2>/dev/null || patch -p1 -s < "$OUT/patch.diff") || { echo "patch does not apply"; rm -rf "$D"; exit 2; }
 (cd "$D" && PYTHONPATH="$D/src" PYTHONHASHSEED=0 timeout 300 /venv/bin/python "$OUT/demo.py" > "$OUT/demo_changed.log" 2>&1); C=$?
 # existing suite with the change
-(cd "$D" && PYTHONPATH="$D/src" /venv/bin/python -m pytest -q -p no:cacheprovider -n 12 --timeout=900 --continue-on-collection-errors --junitxml="$OUT/junit.xml" > "$OUT/pytest.log" 2>&1)
+(cd "$D" && PYTHONPATH="$D/src" /venv/bin/python -m pytest -q -p no:cacheprovider -n 12 --timeout=900 --continue-on-collection-errors --junitxml="$OUT/junit.xml" > "$OUT/pytest.log" 2>&1; tail -3 "$OUT/pytest.log" > "$OUT/pytest_tail.log"; rm -f "$OUT/pytest.log")
 SUITE=$(/venv/bin/python - "$OUT/junit.xml" <<'PY'
 import json, sys, xml.etree.ElementTree as ET
 base=set(json.load(open('/root/.vp/BASELINE.json'))['stable_pass'])
